@@ -7,7 +7,7 @@ from harness.common import (D, I, MEANING, SPELLINGS, cur_mode, err_info, mk_tp,
 from harness import refcal as R
 
 PROP = "C03"
-QUICK_YEARS = (list(range(1996, 2029)) + [1600, 1700, 1800, 1900, 2100, 2200, 2300, 2400, 2800, 3000]
+QUICK_YEARS = (list(range(1996, 2061)) + [1600, 1700, 1800, 1900, 2100, 2200, 2300, 2400, 2800, 3000]
                + list(range(-401, 2)) [::7] + [-401, -400, -399, -101, -100, -99, -5, -4, -3, -2, -1, 0, 1, 2, 3, 4, 5]
                + [9998, 9999, 10000, 10001, 123456, -123456, 400000, -400000])
 
